@@ -82,7 +82,7 @@ theorem L3_npm_partial (c : Comparator) (x : SemVerAst) (hc : L1Dom c) (hb : Can
     spanSat .npm (tokOf c.op) c.p x = .ok (NpmRange.satisfies [.comps [c]] x) := by
   obtain ⟨M, m, p, xpre⟩ := x
   cases xpre with
-  | nil => exact npm_single_release_partial c ⟨M, m, p, []⟩ hc ⟨rfl, hb.major, hb.minor, hb.patch⟩
+  | nil => exact npm_single_release_partial c hc ⟨M, m, p, []⟩ ⟨rfl, hb.major, hb.minor, hb.patch⟩
   | cons i l =>
     obtain ⟨h1, h2, h3⟩ := classes_nil hcls
     obtain ⟨op, nums, pre⟩ := c
@@ -156,6 +156,9 @@ theorem npm_and_list_model (cs : List Comparator) (hne : cs ≠ []) (hdom : ∀ 
   exact ⟨sp, e, g⟩
 
 /-! ## Non-vacuity -/
+
+instance (sys : System) (p q : List Ident) : Decidable (PreAgree sys p q) :=
+  inferInstanceAs (Decidable (comparePre sys (embedPre p) (embedPre q) = DepsDev.Proofs.ordToInt (cmpIdents p q)))
 
 /-- `PreAgree` on concrete identifier lists (`rc.1` against `rc.2`, `alpha` against `7`). -/
 example : PreAgree .npm [.alnum "rc", .num 1] [.alnum "rc", .num 2] ∧ PreAgree .npm [.alnum "alpha"] [.num 7] := by
